@@ -126,7 +126,7 @@ theorem eval_faithful {α : Type} (r : Row) (env : Env α) (hf : Faithful r = tr
     eval r env = expected r env := by
   unfold Faithful at hf
   simp only [Bool.and_eq_true] at hf
-  obtain ⟨⟨⟨⟨⟨hshape, hpeer⟩, hmeth⟩, hres⟩, _hns⟩, hcall⟩ := hf
+  obtain ⟨⟨⟨⟨⟨⟨hshape, hpeer⟩, hmeth⟩, hres⟩, _hns⟩, _hord⟩, hcall⟩ := hf
   cases hb : resolveCall r.targetNames r.call with
   | none => simp [hb] at hcall
   | some b =>
@@ -195,16 +195,34 @@ theorem expected_assoc {α : Type} (r : Row) (env : Env α) (peer : Str) (hp : p
 
 theorem faithful_peer {r : Row} (hf : Faithful r = true) : peerOf r.cls = some r.targetObj := by
   unfold Faithful at hf; simp only [Bool.and_eq_true] at hf
-  simpa using hf.1.1.1.1.2
+  simpa using hf.1.1.1.1.1.2
 
 theorem faithful_ns {r : Row} (hf : Faithful r = true) (hp : nsName ∈ r.paramNames) :
     nsName ∈ r.targetNames := by
   unfold Faithful at hf; simp only [Bool.and_eq_true] at hf
-  have := hf.1.2
+  have := hf.1.1.2
   simp only [Bool.or_eq_true, Bool.not_eq_true', List.contains_iff_mem] at this
   rcases this with h | h
   · simp [hp] at h
   · exact h
+
+/-- **Positional arguments reach the same-named parameter**: in a faithful row the parameters the
+    helper shares with the target are in the target's relative order, so the i-th positional
+    argument of a call written for the target's signature is bound by the helper to the same name
+    (as long as no parameter that only one side has comes before it). -/
+theorem positional_order (r : Row) (hf : Faithful r = true) :
+    r.paramNames.filter (fun p => r.targetNames.contains p)
+      = r.targetNames.filter (fun p => r.paramNames.contains p) := by
+  unfold Faithful at hf; simp only [Bool.and_eq_true] at hf
+  simpa [Row.orderOk] using hf.1.2
+
+/-- in particular, a helper all of whose parameters exist on the target lists them exactly in the
+    target's order -/
+theorem positional_order_no_vestigial (r : Row) (hf : Faithful r = true)
+    (hall : ∀ p ∈ r.paramNames, p ∈ r.targetNames) :
+    r.paramNames = r.targetNames.filter (fun p => r.paramNames.contains p) := by
+  rw [← positional_order r hf]
+  exact (List.filter_eq_self.mpr (fun p hp => by simpa using hall p hp)).symm
 
 /-- **Every argument reaches the same-named parameter unchanged**: for a faithful row, a parameter
     `p` of the helper that the target also has (other than `namespace`) arrives at the target's
@@ -279,6 +297,10 @@ example : Faithful { keptSkipSid with call := [(.pos 0, .param "skip_sid".toList
     (.kw "skip_sid".toList, .param "event".toList), (.kw nsName, .nsOrSelf)] } = false := by decide
 example : Faithful { keptSkipSid with call := [(.pos 0, .param "event".toList),
     (.kw "skip_sid".toList, .const "None".toList), (.kw nsName, .nsOrSelf)] } = false := by decide
+-- the helper's parameters in another order than the target's (everything still forwarded by
+-- keyword): a positional caller would be mis-bound, not faithful
+example : Faithful { keptSkipSid with
+    params := [⟨"event".toList, false⟩, ⟨nsName, true⟩, ⟨"skip_sid".toList, true⟩] } = false := by decide
 -- passing an argument by position instead of by keyword is still faithful
 example : Faithful { keptSkipSid with call := [(.pos 0, .param "event".toList),
     (.pos 1, .param "skip_sid".toList), (.kw nsName, .nsOrSelf)] } = true := by decide
